@@ -10,6 +10,13 @@ import math
 import numpy as np
 
 FILTERS = ["ramp", "shepp-logan", "cosine", "hamming", "hann", None]
+# dtypes the pinned tree accepts and handles correctly (probed): theta may be any of these tensors
+# for both transforms (float16 is accepted but computes in half precision: excluded); images must
+# be float32 (grid_sample rejects everything else); sinograms may be float32/float64 or integers.
+INT_THETA_DTYPES = ["int64", "int32", "uint8"]
+THETA_DTYPES = ["float32", "float64"] + INT_THETA_DTYPES
+INT_SINO_DTYPES = ["int64", "int32", "int16", "uint8"]
+SINO_DTYPES = ["float32", "float64"] + INT_SINO_DTYPES
 EPS32 = float(np.finfo(np.float32).eps)
 
 
@@ -47,6 +54,8 @@ def theta_values(angles, dtype):
     a = expand_angles(angles)
     if dtype == "float32":
         a = a.astype(np.float32).astype(np.float64)
+    elif dtype in INT_THETA_DTYPES:
+        a = np.trunc(a)  # integer tensors hold whole degrees (the generator only draws whole ones)
     return a
 
 
@@ -83,8 +92,10 @@ def build_image(spec, N, masked=True):
     return img.astype(np.float32)
 
 
-def build_sinogram(spec, A, N, theta64):
-    """float32 (A, N) sinogram."""
+def build_sinogram(spec, A, N, theta64, dtype="float32"):
+    """(A, N) sinogram of the requested dtype.  Integer dtypes hold detector counts: the float
+    pattern (amplitude ignored) times 16, rounded, shifted by +64 for unsigned types and clipped
+    to (-2^15, 2^15) / the dtype's range, so that every value is exact in float32 as well."""
     t = spec["type"]
     if t == "impulse":
         s = np.zeros((A, N), dtype=np.float64)
@@ -98,7 +109,11 @@ def build_sinogram(spec, A, N, theta64):
         s = ref_radon(build_image(spec["img"], N), theta64)
     else:
         raise ValueError("unknown sinogram type %r" % (t,))
-    return (s * float(spec.get("amp", 1.0))).astype(np.float32)
+    if dtype in INT_SINO_DTYPES:
+        info = np.iinfo(dtype)
+        c = np.rint(s * 16.0) + (64 if info.min == 0 else 0)
+        return np.clip(c, max(info.min, -(2**15) + 1), min(info.max, 2**15 - 1)).astype(dtype)
+    return (s * float(spec.get("amp", 1.0))).astype(dtype)
 
 
 # ------------------------------------------------------------------------------------------------
